@@ -157,6 +157,14 @@ func run(c *core.Ctx) {
 			each("models=1/value-ladder", []ModelSpec{{Mesh: fmt.Sprintf("W%d", r), Mat: "M", TRS: "T"}})
 		}
 	}
+	for _, glb := range conts {
+		for _, seq := range core.SaveSequences(len(saveScenes)) {
+			if c.Next() {
+				k.saveOver(seq, glb)
+			}
+		}
+	}
+	c.Bound("files.save_sequences", "every sequence of 1..3 SaveText / SaveBinary calls over three scenes (two models with materials, textures and a light; one plain triangle; the empty scene) to one path; the file must equal the in-memory write of the last")
 	for r := range f32Ladder {
 		each("models=1/transform-ladder", []ModelSpec{{Mesh: "A", Mat: "-", TRS: fmt.Sprintf("L%d", r)}})
 	}
@@ -255,6 +263,10 @@ func replay(c *core.Ctx) {
 	var cs Case
 	if err := json.Unmarshal(c.Replay, &cs); err != nil {
 		c.HarnessError("bad case: %v", err)
+		return
+	}
+	if len(cs.SaveSeq) > 0 {
+		checker{c}.saveOver(cs.SaveSeq, cs.GLB)
 		return
 	}
 	for _, m := range cs.Models {
